@@ -741,6 +741,8 @@ def run(chk):
                                  'PeptVerif.Lemmas.ModDbGeneric', 'PeptVerif.Model.ModDb', 'PeptVerif.Model.Formula',
                                  'PeptVerif.Model.ModDbFacts'])
         lap('leanchecker')
+    if chk.generated_changed:
+        TV.restore_after_scratch_run()
     return chk.finish(classify)
 
 
